@@ -37,17 +37,19 @@ def _journal_stats(path):
 
 def second_process(ctx):
     """C14 (c): freshly spawned processes (new ASLR layout, different environment variables, working
-    directory and thread count) must produce the same digest over the same seeded input set."""
+    directory, thread count and address-space limit: none, 3 GiB, 8 GiB; the inputs need a few MiB) must
+    produce the same digest over the same seeded input set."""
     runs = [
-        dict(cwd="/verif", env={}, threads=1),
+        dict(cwd="/verif", env={}, threads=1, as_gib=0),
         dict(cwd="/", env={"LANG": "tr_TR.UTF-8", "TZ": "Pacific/Chatham", "RUST_BACKTRACE": "1", "HOME": "/nonexistent",
-                           "MALLOC_PERTURB_": "165", "PREFLATE_X": "y" * 3000}, threads=4),
-        dict(cwd="/tmp", env={"RUST_MIN_STACK": "8388608", "MALLOC_ARENA_MAX": "1", "LC_ALL": "C"}, threads=16),
+                           "MALLOC_PERTURB_": "165", "PREFLATE_X": "y" * 3000}, threads=4, as_gib=3),
+        dict(cwd="/tmp", env={"RUST_MIN_STACK": "8388608", "MALLOC_ARENA_MAX": "1", "LC_ALL": "C"}, threads=16, as_gib=8),
     ]
     digests, errs = [], []
     for r in runs:
         e = _env(r["env"])
-        p = subprocess.run([ctx["pfv"], "digest", "--seed", str(ctx["seed"]), "--nshards", str(r["threads"])],
+        p = subprocess.run([ctx["pfv"], "digest", "--seed", str(ctx["seed"]), "--nshards", str(r["threads"]),
+                            "--as-gib", str(r["as_gib"])],
                            cwd=r["cwd"], env=e, stdout=subprocess.DEVNULL, stderr=subprocess.PIPE, text=True, timeout=1800)
         m = re.search(r"DIGEST ([0-9a-f]+)", p.stderr)
         if "DIGEST-THREADS-DISAGREE" in p.stderr:
@@ -58,7 +60,7 @@ def second_process(ctx):
         else:
             errs.append("digest process failed rc=%s: %s" % (p.returncode, p.stderr.strip()[-300:]))
             digests.append(None)
-    res = dict(report={"digests": digests, "processes": len(runs)}, counters={"evaluations": 3 * 3 * 8 * 8,
+    res = dict(report={"digests": digests, "processes": len(runs)}, counters={"evaluations": 3 * 4 * 10 * 8,
                                                                              "second_process_runs": len(runs)})
     ok = [d for d in digests if d and d != "disagree"]
     if "disagree" in digests or (len(ok) >= 2 and len(set(ok)) > 1):
